@@ -410,6 +410,64 @@ Definition raw_step (acc : nstate * nstate * vmag * bool) (s : rstep) : nstate *
     && (inplace || Bool.eqb (n_updated_flag dl cavd last new) (r_obs_updated s)) in
   (st', base, tol, ok && good).
 
+(* ---------- EPMeanField.subset / EPMeanFieldSubset (stochastic EP on a batch of plate elements) ----------
+   The subset keeps, of every factor's mean field, the selected plate elements and the whole message of a
+   variable without the plate; such a variable gets rescale s = |batch| / |plate| < 1:
+   factor_approximation reports  factor_dist = own^s,  cavity = cavity * own^(1-s)  (model unchanged), and
+   project_mean_field tests the validity of a FULL projection on  new / (cavity * own^(1-s))  before
+   multiplying own^(1-s) back. *)
+Definition restrict (sel : list var) (st : nstate) : nstate :=
+  map (filter (fun vm : var * N2 => has_var (fst vm) sel)) st.
+Definition scale_of (frac : Q) (scalars : list var) (v : var) : Qc :=
+  if has_var v scalars then Q2Qc frac else Q2Qc 1.
+Definition sub_rest (s : Qc) (o : N2) : N2 := n_scale (Q2Qc 1 - s)%Qc o.
+(* cavity_dist as EPMeanFieldSubset.factor_approximation reports it *)
+Definition sub_cavity (frac : Q) (scalars : list var) (i : nat) (sst : nstate) : nmf :=
+  let cavd := n_cavity i sst in
+  only_messages N2 (map (fun vm =>
+    let s := scale_of frac scalars (fst vm) in
+    (fst vm, match get N2 (fst vm) cavd with
+             | Some c => Some (if qclt s (Q2Qc 1) then n_add c (sub_rest s (snd vm)) else c)
+             | None => None
+             end)) (own N2 i sst)).
+Definition sub_msg (frac : Q) (scalars : list var) (dl : delta) (cavd last : nmf) (v : var) (nw : N2) : N2 * bool :=
+  let c := cand N2 n_add n_opp n_scale dl cavd last v nw in
+  let s := scale_of frac scalars v in
+  let chk := match get N2 v last with
+             | Some o => if is_full dl && qclt s (Q2Qc 1) then n_add (fst c) (n_opp (sub_rest s o)) else fst c
+             | None => fst c
+             end in
+  let ok := snd c && n_valid chk in
+  ((if ok then fst c else match get N2 v last with Some o => o | None => fst c end), ok).
+Definition sub_update (frac : Q) (scalars : list var) (dl : delta) (cavd last new : nmf) : nmf :=
+  map (fun vn => (fst vn, fst (sub_msg frac scalars dl cavd last (fst vn) (snd vn)))) new.
+Definition sub_all_valid (frac : Q) (scalars : list var) (dl : delta) (cavd last new : nmf) : bool :=
+  forallb (fun vn => snd (sub_msg frac scalars dl cavd last (fst vn) (snd vn))) new.
+
+Definition sub_step (frac : Q) (scalars : list var) (acc : nstate * vmag * bool) (s : rstep) : nstate * vmag * bool :=
+  let '(sst, vm0, ok) := acc in
+  let i := r_factor s in
+  let new := in_mf (r_new s) in
+  let cavd := n_cavity i sst in
+  let last := own N2 i sst in
+  let dl := delta_of (r_delta s) sst in
+  let sst' := replace_nth i (sub_update frac scalars dl cavd last new) sst in
+  let tol := vm_add_mf (vm_add_mf vm0 new) (own N2 i sst') in
+  let good :=
+    mf_close tol (sub_cavity frac scalars i sst) (r_obs_cavity s)
+    && mf_close tol (n_model_dist i sst) (r_obs_model s)
+    && mf_close tol (own N2 i sst') (r_obs_msg s)
+    && mf_close tol (n_global sst') (r_obs_global s)
+    && Bool.eqb (sub_all_valid frac scalars dl cavd last new) (r_obs_success s) in
+  (sst', tol, ok && good).
+
+(* approx.update(sub) / approx[index] = sub / approx.merge(index, sub): every factor's selected elements are written back *)
+Fixpoint write_back (st sst : nstate) : nstate :=
+  match st, sst with
+  | m :: st', sm :: sst' => overwrite m sm :: write_back st' sst'
+  | _, _ => st
+  end.
+
 Definition ofit := outcome N2.
 Record obs_entry := {
   o_factor : nat; o_success : bool; o_updated : bool; o_token : option Z;
@@ -471,6 +529,11 @@ Inductive case :=
        (obs_state0 : list obs_mf) (obs_global0 : obs_mf)
        (steps : list rstep)
        (obs_final : list obs_mf)
+(* a plated graph, the subset on a batch of plate elements, projections on the subset, write-back *)
+| CSub (init : list (list (var * (Q * Q)))) (sel : list var) (frac : Q) (scalars : list var)
+       (obs_sub0 : list obs_mf) (obs_subglobal0 : obs_mf)
+       (steps : list rstep)
+       (writeback : bool) (obs_final : list obs_mf) (obs_final_global : obs_mf)
 (* a declarative graph: initial state, then EPOptimiser.run with scripted optimisers *)
 | CDecl (priors : list (var * (Q * Q))) (model_factors : list (list var)) (include : bool) (pf : list var)
         (obs_state0 : list obs_mf) (obs_cavity0 : list obs_mf)
@@ -488,6 +551,14 @@ Definition check_case (c : case) : bool :=
       let vm0 := vm_add_st [] st0 in
       let '(stn, _, vmn, ok) := fold_left raw_step steps (st0, st0, vm0, true) in
       st_close vm0 st0 o0 && mf_close vm0 (n_global st0) g0 && ok && st_close vmn stn ofin
+  | CSub init sel frac scalars o0 g0 steps wb ofin gfin =>
+      let st0 := in_state init in
+      let sst0 := restrict sel st0 in
+      let vm0 := vm_add_st [] st0 in
+      let '(sstn, vmn, ok) := fold_left (sub_step frac scalars) steps (sst0, vm0, true) in
+      let stn := if wb then write_back st0 sstn else st0 in
+      st_close vm0 sst0 o0 && mf_close vm0 (n_global sst0) g0 && ok
+      && st_close vmn stn ofin && mf_close vmn (n_global stn) gfin
   | CDecl priors fs include pf o0 c0 rd order max_steps stop scripts olog ofin oacc groups ogroups =>
       let pri := in_mf priors in
       let st0 := init_state N2 n_scale code_counts_occurrences include fs pf pri n_zero in
